@@ -174,6 +174,17 @@ func classOf(p *propSpec, r *result) (string, *violation) {
 	return "", nil
 }
 
+// hasClass reports whether the run contains an owned violation of the class.
+func hasClass(p *propSpec, r *result, class string) *violation {
+	for i := range r.Violations {
+		v := r.Violations[i]
+		if p.owns(v) && v.Property+"/"+v.Clause+"/"+v.Sig == class {
+			return &v
+		}
+	}
+	return nil
+}
+
 // minimise shrinks the tape while the same violation class persists. Candidates are
 // evaluated in fresh processes, several at a time.
 func minimise(bin string, p *propSpec, profile, dir string, seed uint64, tape []uint32, class string, budget time.Duration) []uint32 {
@@ -197,8 +208,7 @@ func minimise(bin string, p *propSpec, profile, dir string, seed uint64, tape []
 				r, err := replayTape(bin, profile, dir, seed, c)
 				ok := false
 				if err == nil && r.ToolError == "" {
-					cl, _ := classOf(p, r)
-					ok = cl == class
+					ok = hasClass(p, r, class) != nil
 				}
 				ch <- res{i, ok}
 			}(i, c)
@@ -511,12 +521,7 @@ func cmdCheck(args []string) int {
 			seen[cl] = true
 			nviol++
 			if h := classes[cl]; h == nil || r.Seed < h.r.Seed {
-				// only the first owned violation of a run defines what its replay must reproduce
-				if first, _ := classOf(spec, r); first == cl {
-					classes[cl] = &hit{r, v, cl}
-				} else if h == nil {
-					classes[cl] = nil
-				}
+				classes[cl] = &hit{r, v, cl}
 			}
 		}
 	}
@@ -547,7 +552,8 @@ func cmdCheck(args []string) int {
 			toolErrs = append(toolErrs, fmt.Sprintf("replay of seed %d failed: %v", h.r.Seed, err))
 			continue
 		}
-		if c2, _ := classOf(spec, rr); c2 != cl {
+		if hasClass(spec, rr, cl) == nil {
+			c2, _ := classOf(spec, rr)
 			toolErrs = append(toolErrs, fmt.Sprintf("violation %s of seed %d (profile %s) did not reproduce from its tape (got %q): non-deterministic run", cl, h.r.Seed, h.r.Profile, c2))
 			continue
 		}
@@ -557,11 +563,11 @@ func cmdCheck(args []string) int {
 			toolErrs = append(toolErrs, fmt.Sprintf("final replay failed: %v", err))
 			continue
 		}
-		c3, v3 := classOf(spec, fr)
-		if c3 != cl {
+		v3 := hasClass(spec, fr, cl)
+		if v3 == nil {
 			// fall back to the unminimised tape
-			small, fr, v3 = tape, rr, nil
-			_, v3 = classOf(spec, rr)
+			small, fr = tape, rr
+			v3 = hasClass(spec, rr, cl)
 		}
 		if kf := matchKnown(known, v3); kf != nil {
 			fmt.Printf("KNOWN-FINDING: property=%s %s\n", id, kf.What)
@@ -717,6 +723,9 @@ func cmdReplay(args []string) int {
 		}
 	}
 	cl, v := classOf(spec, r)
+	if hv := hasClass(spec, r, rf.Class); hv != nil {
+		cl, v = rf.Class, hv
+	}
 	if bi.Report.Fingerprint != rf.Fingerprint {
 		fmt.Printf("note: instrumented sources differ from the build that produced this file (%s vs %s)\n", bi.Report.Fingerprint, rf.Fingerprint)
 	}
